@@ -4,6 +4,7 @@ import (
 	"bytes"
 	"encoding/base64"
 	"fmt"
+	"io"
 	"os"
 	"os/exec"
 	"path/filepath"
@@ -32,6 +33,38 @@ type ProcCase struct {
 	// "missing" (a path that does not exist), "stdin-dir" (standard input is a directory).
 	Fault   string `json:"fault,omitempty"`
 	FaultAt int    `json:"fault_at"`
+	// StdinPipe, if non-empty, makes standard input a kernel PIPE instead of a regular file: the content is
+	// written by this process in chunks of these sizes (cycled), so the tool meets genuine short reads, a
+	// descriptor that cannot be stat-ed for a size or seeked, and EOF only when the writer closes.
+	StdinPipe []int `json:"stdin_pipe_chunks,omitempty"`
+}
+
+// chunkReader hands out its data in chunks of the given sizes; os/exec copies each chunk to the child's
+// stdin pipe with one write call.
+type chunkReader struct {
+	data   []byte
+	chunks []int
+	i      int
+}
+
+func (c *chunkReader) Read(p []byte) (int, error) {
+	if len(c.data) == 0 {
+		return 0, io.EOF
+	}
+	n := c.chunks[c.i%len(c.chunks)]
+	c.i++
+	if n < 1 {
+		n = 1
+	}
+	if n > len(p) {
+		n = len(p)
+	}
+	if n > len(c.data) {
+		n = len(c.data)
+	}
+	copy(p, c.data[:n])
+	c.data = c.data[n:]
+	return n, nil
 }
 
 func (pc *ProcCase) files() [][]byte {
@@ -155,6 +188,12 @@ func ExecProc(bin, dir string, pc *ProcCase) (Outcome, string, error) {
 		}
 		defer d.Close()
 		cmd.Stdin = d
+	} else if stdinPath != "" && len(pc.StdinPipe) > 0 {
+		b, err := os.ReadFile(stdinPath)
+		if err != nil {
+			return Outcome{}, "", err
+		}
+		cmd.Stdin = &chunkReader{data: b, chunks: pc.StdinPipe}
 	} else if stdinPath != "" {
 		f, err := os.Open(stdinPath)
 		if err != nil {
@@ -271,6 +310,22 @@ func GenProcCase(r *prng.Rand, fk FaultKinds) *ProcCase {
 			pc.FaultAt = r.Intn(len(fs) + 1)
 			fk["proc:missing-file"]++
 		}
+	}
+	if pc.Fault != "stdin-dir" && pc.Mode != "files" && r.Chance(1, 2) {
+		// standard input is a pipe fed in seeded chunks (cat script | pql ...)
+		switch r.Intn(4) {
+		case 0:
+			pc.StdinPipe = []int{1 << 20}
+		case 1:
+			pc.StdinPipe = []int{r.Range(1, 7)}
+		case 2:
+			pc.StdinPipe = []int{4096, 1, r.Range(1, 4095)}
+		default:
+			for k := r.Range(2, 6); k > 0; k-- {
+				pc.StdinPipe = append(pc.StdinPipe, []int{1, 2, 3, 17, 255, 4095, 4096, 4097, 65536}[r.Intn(9)])
+			}
+		}
+		fk["proc:stdin-is-a-pipe(chunked writes)"]++
 	}
 	if sc.LongLineAt >= 0 {
 		fk["proc:over-long-line"]++
